@@ -40,9 +40,10 @@ every history of expressions of any length and every starting table of children:
   returns what the user's expression means in Python.
 * `C18_slice_repaired` / `C18_slice_partial` / `C18_slice_witness` — `x[a:b:c]` with a channel-like component
   goes through the `Slice` node: the value clause holds for `slice(start, stop, step)`, holds for the node as it
-  is in /repo on closed slices only, and is FALSE for the open-ended forms (`x[a:]` raises ValueError where
-  Python slices); `C18_slice_value` composes it with `GetItem`; `C18_slice_raise_effect` — the partial effect
-  of that error (the `Slice` child stays behind, no `GetItem`).
+  was in /repo on closed slices only, and is FALSE for the open-ended forms (`x[a:]` raises ValueError where
+  Python slices); `C18_slice_value` composes it with `GetItem`; `C18_slice_raise_effect`,
+  `C18_raising_injection_leaves_nothing` — a new node whose auto-run raises is taken out of the parent again
+  by its constructor: the children are what they were.
 
 NOT proved (Python itself is the only oracle; validated differentially by the harness): what Python's
 operations compute (`py` above is a parameter).  `str()/repr()/type().__qualname__` of operands and `hash` are
@@ -367,27 +368,31 @@ theorem C18_slice_reuse (H : Key → String) (p : Printer) (st : St) (par owner 
   simp only []
   rw [e2]
 
-/-- the partial effect of the refused open-ended slice inside a parent: the new `Slice` node stays behind as a
-child (one more child), no `GetItem` is made; written again, the expression does not raise any more -/
+/-- the effect of a refused open-ended slice (strict `Slice` function) inside a parent: the new `Slice` node raises
+in its constructor, which takes it out of the parent again: no `GetItem`, the children are what they were, only a
+node id is used up (so the same expression written again raises again) -/
 theorem C18_slice_raise_effect (H : Key → String) (p : Printer) (st : St) (par owner : Nat) (slabel : String)
-    (a b c : Operand) (chanOf : Nat → Nat) (sN bN cN : Bool) (hwf : WF st)
+    (a b c : Operand) (chanOf : Nat → Nat) (sN bN cN : Bool)
     (hnew : (st.children par).lookup (label H p ⟨owner, slabel, "Slice", [a, b, c]⟩) = none)
     (hopen : (bN || (sN && !cN)) = true) :
     let r := getitemSliceRun H p .strict st (some par) owner slabel a b c chanOf true sN bN cN
-    r.2.2 = none ∧ r.2.1 = st.next ∧ (r.1.children par).length = (st.children par).length + 1 ∧
-    (getitemSliceRun H p .strict r.1 (some par) owner slabel a b c chanOf true sN bN cN).2.2.isSome := by
+    r.2.2 = none ∧ r.2.1 = st.next ∧ r.1.children = st.children ∧ r.1.next = st.next + 1 := by
   have hr : sliceRaises .strict true sN bN cN = true := by rw [sliceRaises_strict]; simpa using hopen
   have hinj := inject_new H p st par ⟨owner, slabel, "Slice", [a, b, c]⟩ hnew
-  have hrun : getitemSliceRun H p .strict st (some par) owner slabel a b c chanOf true sN bN cN =
-      ((inject H p st (some par) ⟨owner, slabel, "Slice", [a, b, c]⟩).1, st.next, none) := by
-    simp [getitemSliceRun, hinj, hr]
-  simp only [hrun]
-  refine ⟨trivial, trivial, ?_, ?_⟩
-  · rw [hinj]; simp
-  · have hl := inject_lookup_self H p st par ⟨owner, slabel, "Slice", [a, b, c]⟩
-    rw [getitemSliceRun_found H p .strict _ par owner slabel a b c chanOf true sN bN cN _
-      (inject_WF H p st (some par) _ hwf) hl]
-    rfl
+  simp [getitemSliceRun, hinj, hr]
+
+/-- **a constructor that raises leaves nothing behind**: when the auto-run of a newly injected node fails, the
+exception leaves the expression, the parent's children are exactly what they were (for any labelling), and the
+same expression written again is injected afresh; an expression whose node exists cannot raise this way -/
+theorem C18_raising_injection_leaves_nothing (L : Expr → String) (st : St) (par : Nat) (e : Expr) :
+    ((st.children par).lookup (L e) = none →
+      (injectX L st (some par) e true).1.children = st.children ∧ (injectX L st (some par) e true).2 = st.next ∧
+      ((injectX L st (some par) e true).1.children par).lookup (L e) = none) ∧
+    (∀ n, (st.children par).lookup (L e) = some n → n < st.next → injectX L st (some par) e true = (st, n)) := by
+  refine ⟨fun h => ?_, fun n h hn => ?_⟩
+  · simp [injectX, injectL_new L st par e h, h]
+  · have : (n == st.next) = false := by simp; omega
+    simp [injectX, injectL_found L st par e n h, this]
 
 /-! ### a new interpreter session
 
@@ -447,12 +452,14 @@ example : nodeFn exPy (dispatch .sub) (nodeArgs true 7 [2]) = some 5 ∧
     nodeFn exPy (dispatch .neg) (nodeArgs true 7 []) = some (-7) := by decide
 example : ClosedSlice (some 1) (some 4) (none : Option Nat) ∧ ¬ ClosedSlice (some 1) none (none : Option Nat) := by
   simp [ClosedSlice]
-/-- `x[c:]` inside a parent on the strict node: the Slice node is left behind, then the expression "works" -/
+/-- `x[c:]` inside a parent on the strict node: the expression raises and nothing is left behind -/
 example :
     let r := getitemSliceRun exH .repaired .strict emptySt (some 0) 0 "s__user_input"
       (.chan 3 "i__user_input") (.raw "NoneType" "None" "None") (.raw "NoneType" "None" "None") (· + 1000)
       true false true true
-    r.2 = (0, none) ∧ (r.1.children 0).length = 1 := by decide
+    r.2 = (0, none) ∧ (r.1.children 0).length = 0 ∧ r.1.next = 1 := by decide
+example : (injectX (labelWith exH2 opKey) emptySt (some 0) wLongA true).1.children 0 = [] ∧
+    (injectX (labelWith exH2 opKey) emptySt (some 0) wLongA false).1.children 0 ≠ [] := by decide
 example : Coherent [wInt, wStr, wAddInt, exMulB] := by
   intro e1 h1 e2 h2
   simp only [List.mem_cons, List.not_mem_nil, or_false] at h1 h2
@@ -506,5 +513,6 @@ end PwVerif.C18
 #print axioms PwVerif.C18.C18_slice_value
 #print axioms PwVerif.C18.C18_slice_reuse
 #print axioms PwVerif.C18.C18_slice_raise_effect
+#print axioms PwVerif.C18.C18_raising_injection_leaves_nothing
 #print axioms PwVerif.C18.C18_restart_stable
 #print axioms PwVerif.C18.C18_restart_witness
